@@ -226,6 +226,7 @@ func (p *parser) readStructType() *Type {
 	t := &Type{Kind: TypeStruct}
 	t.Fields = make([]TypeField, 0)
 
+	p.advance()
 	char := p.next()
 	if char != ')' {
 		p.backup()
